@@ -113,7 +113,7 @@ fn render_files(doc: &TsDoc, rng: &mut Rng) -> Vec<String> {
 pub fn run(ctx: &Ctx, rep: &mut Report) {
     crate::gen_syntax::set_allow_block(false);
     rep.note("feature mask: no block strings (C07), literal coercions off in defaults and directive arguments on the accept side of the default run");
-    let n = ctx.budget(5_000, 300_000);
+    let n = ctx.budget(25_000, 600_000);
     let mut rejected_drafts = 0u64;
     for case in 0..n {
         let mut rng = ctx.rng("case", case);
